@@ -22,8 +22,9 @@ import traceback
 import numpy as np
 
 ROOT = os.path.dirname(os.path.dirname(os.path.abspath(__file__)))
-EVIDENCE_DIR = os.path.join(ROOT, "evidence")
-REPLAY_DIR = os.path.join(ROOT, "replays")
+# overridable so that runs against a scratch tree (seeded changes, mutants) never touch the committed evidence
+EVIDENCE_DIR = os.environ.get("VERIF_EVIDENCE_DIR") or os.path.join(ROOT, "evidence")
+REPLAY_DIR = os.environ.get("VERIF_REPLAY_DIR") or os.path.join(ROOT, "replays")
 KNOWN_FILE = os.path.join(ROOT, "known_findings.json")
 PY = sys.executable
 
@@ -290,7 +291,8 @@ def run_check(prop: str, tier: str, seed: int, workers: int | None = None, runs:
                 continue
             for v in r.get("violations", []):
                 kid = classify(mod, specs[r["index"]], v, known)
-                ck = (v["monitor"], kid)
+                # unknown violations: one class per monitor; known findings: one class per finding id
+                ck = (v["monitor"], None) if kid is None else ("*", kid)
                 if any(m[0] == r["index"] for m in classes.get(ck, [])):
                     continue  # one member per run and class
                 classes.setdefault(ck, []).append((r["index"], v))
@@ -300,6 +302,7 @@ def run_check(prop: str, tier: str, seed: int, workers: int | None = None, runs:
         for (monitor, kid), members in sorted(classes.items(), key=lambda kv: (kv[0][0], str(kv[0][1]))):
             idx, v = members[0]
             spec0 = specs[idx]
+            monitor = v["monitor"]
             # confirm in a fresh process first
             rr = replay_in_fresh_process(prop, spec0, timeout_s=timeout_s + 120)
             if "harness_error" in rr:
